@@ -242,6 +242,23 @@ mut("neutral-cmp-reordered", R, "        return any(cmp.cmp(fields_a, fields_b) 
     "        return any(cmp.cmp(fields_b, fields_a) for cmp in reversed(self._models_cmp))", ["C05", "C01"], kind="neutral")
 
 
+mut("neutral-dataclass-always-field-call", MD, "        if len(body_kwargs) == 1 and next(iter(body_kwargs.keys())) == \"default\":\n            data[\"body\"] = body_kwargs[\"default\"]\n        elif body_kwargs:",
+    "        if body_kwargs:", ["C04", "C12", "C18", "C01"], kind="neutral")
+mut("neutral-union-members-reversed", CX, "        super().__init__(*unique_types)", "        super().__init__(*reversed(unique_types))", ["C01", "C02", "C04", "C07", "C08"], kind="neutral")
+mut("neutral-literal-values-reverse-sorted", CX, "                    for s in sorted(self.literals)", "                    for s in sorted(self.literals, reverse=True)", ["C04", "C10", "C06"], kind="neutral")
+mut("neutral-merge-groups-reverse-order", R, "            key=lambda group: models_order[group[0]]\n        )", "            key=lambda group: -models_order[group[0]]\n        )", ["C05", "C07", "C14", "C06", "C12"], kind="neutral")
+mut("neutral-header-wording", CLI, "f'generated by json2python-models v{VERSION} at {datetime.now().ctime()}\\n'", "f'Models generated with json2python-models {VERSION} on {datetime.now().ctime()}\\n'", ["C19", "C16", "C17"], kind="neutral")
+mut("neutral-replaces-as-frozensets", R, "            replaces.append((model_meta, set(group)))", "            replaces.append((model_meta, frozenset(group)))", ["C05"], kind="neutral")
+
+
+mut("neutral-cli-friendly-errors-exit-2", CLI, "    cli = Cli()\n    cli.parse_args()\n    print(cli.run())",
+    "    cli = Cli()\n    try:\n        cli.parse_args()\n        text = cli.run()\n    except Exception as e:\n        import sys as _sys\n        print(f'json2models: error: {type(e).__name__}: {e}', file=_sys.stderr)\n        _sys.exit(2)\n    print(text)", ["C17", "C16"], kind="neutral")
+mut("neutral-cli-error-message-on-stdout", CLI, "    cli = Cli()\n    cli.parse_args()\n    print(cli.run())",
+    "    cli = Cli()\n    try:\n        cli.parse_args()\n        text = cli.run()\n    except Exception as e:\n        import sys as _sys\n        print(f'json2models failed: {e}')\n        _sys.exit(1)\n    print(text)", ["C17"], kind="neutral")
+mut("neutral-output-file-ends-with-newline", CLI, "                f.write(output)", "                f.write(output + '\\n')", ["C16", "C17"], kind="neutral")
+mut("neutral-optional-fields-sorted-by-name", ST, "    return required + required_2, optional", "    return required + required_2, sorted(optional)", ["C04", "C12", "C03", "C06", "C18"], kind="neutral")
+
+
 def apply(m, root):
     p = os.path.join(root, m["file"])
     s = open(p).read()
